@@ -14,6 +14,7 @@ class World:
             y[4] = y[5]
         else:
             y = np.array(sorted([rng.random() * 0.9 + 0.05 for _ in range(n)], reverse=True))
+        y[-1] = 0.0          # the curve reaches exactly 0 (relative metrics divide by y + eps there)
         self.P = np.column_stack([x, y])
         self.x, self.y = x.copy(), y.copy()
         self.yh = (y + 1.0) if integral else (y * 0.9 + 0.01)
